@@ -77,6 +77,8 @@ func checkC11(w *World, r *Report) {
 	}
 	// (b) Abort guard
 	ruleAbort(w, r, "C11", trig, pred, opts)
+	// decorators see the same pair of terminal answers as the getters
+	ruleStatisticsFaithful(w, r, "C11")
 
 	// (c) writers of aborted
 	loop, _, exitArm := w.barExitArm(r)
